@@ -22,19 +22,19 @@ CHECKS = {
     ),
     "C03": (
         "Hypothesis @given problems x utility ladders; closure invariants + reachability against the exact pocket-free envelope",
-        "Generated-input search (1.5k quick / 40k thorough) over stream sets x utility sets (none, 1-3 levels per side, Both, glide, inactive): per DI target the hot/cold duties sum to the exact Qh/Qc, are non-negative, sit beyond the exact pinch and below the exact pocket-free GCC at their supply level; Total-Process utilities equal the per-position, per-name sum over child zones.",
+        "Generated-input search (1.5k quick / 40k thorough) over stream sets x utility sets (none, 1-3 levels per side, Both, glide, inactive): per DI target the hot/cold duties sum to the exact Qh/Qc, are non-negative, are assigned on the levels that were supplied (documented isothermal expansion, own contribution), sit beyond the exact pinch and below the exact pocket-free GCC at their supply level; Total-Process utilities equal the per-position, per-name sum over child zones.",
         "Exact cascade and envelope are the reference; reachability is a necessary condition only (C04 decides the full profile); R6 finding excluded by an input-only predicate.",
         "DESIGN.md section 5 C03",
     ),
     "C04": (
         "Hypothesis @given problems x ladders; utility GCC rebuilt from reported duties vs exact pocket-free envelope, and lexicographic LP (HiGHS) optimum",
-        "Generated-input search (1k quick / 25k thorough): (a) for every ladder the harness rebuilds U(T) from reported duties and utility temperatures and checks 0 <= U <= exact pocket-free GCC at every breakpoint of both curves, plus the table's own H_net_ut vs H_net_actual; (b) for isothermal ladders with levels >= 1 K apart and unambiguous grade order the duties must equal an independent lexicographic LP optimum.",
+        "Generated-input search (1k quick / 25k thorough): (a) for every ladder the harness rebuilds U(T) from reported duties and utility temperatures and checks 0 <= U <= exact pocket-free GCC at every breakpoint of both curves, plus the table's own H_net_ut column (within [0, H_net_actual] and equal to the rebuilt U(T) row by row); (b) for isothermal ladders with levels >= 1 K apart and unambiguous grade order the duties must equal an independent lexicographic LP optimum.",
         "Exact envelope from the Fraction cascade; HiGHS trusted as optimiser; optimality only claimed where real and shifted level orders agree.",
         "DESIGN.md section 5 C04",
     ),
     "C05": (
         "Hypothesis @given problems; per-row differential of both problem tables against exact heat-content functions and exact interval CP sums",
-        "Generated-input search (1k quick / 30k thorough): every row of the shifted and the real table of every DI target is compared with the exact hot/cold heat content below T (cold offset = Qc), spans, ends, sign and zero of H_net, and the dT / CP / dH bookkeeping of every interval, including rows inserted by projection, pocket cutting and utility levels.",
+        "Generated-input search (1k + 1.5k quick / 30k + 40k thorough; part service and part direct = get_process_heat_cascade called with harness-built Stream objects, all_streams omitted / given / reversed, then further temperatures inserted into the finished tables): every row of the shifted and the real table of every DI target is compared with the exact hot/cold heat content below T (cold offset = Qc), spans, ends, sign and zero of H_net, and the dT / CP / dH bookkeeping of every interval, including rows inserted by projection, pocket cutting and utility levels.",
         "Tables are exposed after the pipeline's 4-dp rounding; tolerances are derived from that rounding and the local CP.",
         "DESIGN.md section 5 C05",
     ),
@@ -70,20 +70,20 @@ CHECKS = {
     ),
     "C11": (
         "Hypothesis RuleBasedStateMachine over call histories; oracle = one-shot forked pristine process per call, input snapshots, module-state fingerprint",
-        "Stateful search (240 histories x <=6 calls quick / 5k x <=10 thorough): service calls with dicts, reused and fresh models, PinchProblem load / target / target-again / export over a pool of different problems; after every call the result dump must equal that of a process that ran only this call, the caller's input must be unchanged, earlier results unchanged and the OpenPinch.* module fingerprint (globals, class attributes, function defaults) identical. A sample of problems is also run in genuinely fresh interpreters to validate the fork proxy.",
+        "Stateful search (240 histories x <=6 calls quick / 5k x <=10 thorough): service calls with dicts, reused and fresh models, PinchProblem load / target / target-again / export, re-load of another problem and of one model edited in place on the same wrapper, over a pool of different problems; after every call the result dump must equal that of a process that ran only this call, the caller's input must be unchanged, earlier results unchanged and the OpenPinch.* module fingerprint (globals, class attributes, function defaults) identical. A sample of problems is also run in genuinely fresh interpreters to validate the fork proxy.",
         "Fork proxy assumption (validated on 4 / 48 fresh interpreters per run); state outside OpenPinch.* is not fingerprinted.",
         "DESIGN.md section 5 C11",
     ),
     "C12": (
         "Hypothesis @given problem x transformation; metamorphic relations between the two service results",
-        "Generated-input search (1.2k quick / 30k thorough pairs): permutation, split at an interior temperature, parallel branches, translation, duty scaling, zone renaming and temperature-axis mirroring; Qh, Qc, Qr, every utility duty by name, pinch temperatures (shifted / negated-and-swapped) for DI, Total-Process and Total-Site records, and the composite / grand composite graph curves where the transformation leaves them unchanged.",
+        "Generated-input search (2.4k quick / 40k thorough pairs; bases incl. GCC-shaped multi-pocket stream sets, glide ladders and loop sites): permutation, split at an interior temperature, parallel branches, translation, duty scaling, zone renaming and temperature-axis mirroring; Qh, Qc, Qr, every utility duty by name, pinch temperatures (shifted / negated-and-swapped) for DI, Total-Process and Total-Site records, and the composite / balanced / grand composite / total-site graph curves where the transformation leaves them unchanged.",
         "Pairs with an exact residual or enthalpy step below 1e-4 x total duty are skipped and counted; ladders have levels >= 1 K apart; the R6 asymmetry is excluded by its input-only predicate.",
         "DESIGN.md section 5 C12",
     ),
     "C13": (
         "Hypothesis @given problems x graph options; geometric differential (Chebyshev point-to-polyline) between emitted graphs and the stored table slices",
-        "Generated-input search (800 quick / 20k thorough): every emitted point is a table row within display rounding and in order, every table row of the non-flat extent lies within 0.011 of the emitted polyline, segment colours follow the sign of the enthalpy change without mixed-sign segments, extents equal stream duties / Qh / Qc, and graph-set keys, names and types are as documented for every target incl. total-site sets.",
-        "The stored table slices are the reference (their correctness is C05/C07); records with non-unique names are skipped.",
+        "Generated-input search (800 quick / 20k thorough): every emitted point is a table row within display rounding and in order, every table row of the non-flat extent lies within 0.011 of the emitted polyline, segment colours follow the sign of the enthalpy change without mixed-sign segments, extents equal stream duties / Qh / Qc / summed and assigned zonal utility duties (total-site profiles), the table stored behind each emitted graph is a column-by-column slice of the target's own problem table, and graph-set keys, names and types are as documented for every target incl. total-site sets.",
+        "The target's own problem tables are the reference (their correctness is C05/C07); records with non-unique names are skipped.",
         "DESIGN.md section 5 C13",
     ),
     "C14": (
@@ -100,7 +100,7 @@ CHECKS = {
     ),
     "C16": (
         "Hypothesis @given problem x channel set x wrapper call sequence (differential across channels); sheet-name predicate on generated label sets",
-        "Generated-input search (160 problems x 3-5 channels quick / 4k thorough, plus 3k / 100k sheet-label sets): plain dict, validated model, value-with-unit dict, JSON file, CSV directory, CSV pair, XLSX workbook and PinchProblem.from_json must give the targets of the plain-dict call exactly (after the root name and the workbook reader's documented label normalisation); target() is cached; exported and directly allocated sheet names are unique, <= 31 characters and free of forbidden characters.",
+        "Generated-input search (160 problems x 3-5 channels quick / 4k thorough, plus 3k / 100k sheet-label sets): plain dict, validated model, value-with-unit dict, JSON file, CSV directory, CSV pair, XLSX workbook and PinchProblem.from_json must give the targets of the plain-dict call exactly (after the root name and the workbook reader's documented label normalisation); target() is cached, also after the same wrapper has loaded and targeted another problem (other file, same path rewritten, model); exported and directly allocated sheet names are unique, <= 31 characters and free of forbidden characters.",
         "Input files are written by the harness in the template layout; file channels carry no options or 'active' flags.",
         "DESIGN.md section 5 C16",
     ),
